@@ -205,6 +205,13 @@ func RunVerify(c *world.Case) Outcome {
 // RunVerifyShared executes the case through a caller-owned Options value that earlier verified other
 // cases: the exported settings are overwritten the way a caller re-using the value would do it.
 func RunVerifyShared(c *world.Case, shared *verify.Options) Outcome {
+	g := ConfigureShared(c, shared)
+	return runVerify(c, shared, g)
+}
+
+// ConfigureShared writes the case's exported settings into a re-used options value the way a caller would (see RunVerifyShared)
+// and returns the getter it installed.
+func ConfigureShared(c *world.Case, shared *verify.Options) *world.Getter {
 	o, g := Options(c)
 	// a caller that re-uses an options value keeps the pool and the time set it configured once: when this case trusts the same
 	// certificates (judges at the same instants) as the previous case run through this value, the SAME pool (time set) object stays
@@ -229,7 +236,7 @@ func RunVerifyShared(c *world.Case, shared *verify.Options) Outcome {
 	sharedPrev[shared] = sharedSettings{roots: key, pool: o.TrustedRoots, times: tkey, now: o.Now}
 	sharedMu.Unlock()
 	shared.GetCollateral, shared.CheckRevocations, shared.Getter, shared.Now, shared.TrustedRoots = o.GetCollateral, o.CheckRevocations, g, o.Now, o.TrustedRoots
-	return runVerify(c, shared, g)
+	return g
 }
 
 type sharedSettings struct {
